@@ -21,6 +21,26 @@ def cases(ctx):
             ctx.count('spk-' + ty)
             yield Case(f'spk {ty} {hx(h)} {net}', 'ms', nontrivial=net != 'testnet', tag='spk',
                        spec=lambda ans, ty=ty, h=h: (f's:spk {ty} {hx(h)}', ans))
+    from harness import rmdleaf
+    yield from rmdleaf.cases(ctx)
+    # a locking script obtained earlier is still the same after another one of the same kind was requested
+    # (objects are held un-serialised across the second request)
+    for _ in range(ctx.n(40, 1500)):
+        ty, ln = rng.choice([('p2pkh', 20), ('p2sh', 20), ('p2wpkh', 20), ('p2wsh', 32), ('p2tr', 32)])
+        ty2 = ty if rng.random() < 0.7 else rng.choice(['p2pkh', 'p2sh', 'p2wpkh', 'p2wsh', 'p2tr'])
+        ln2 = 20 if ty2 in ('p2pkh', 'p2sh', 'p2wpkh') else 32
+        h, h2 = G.rbytes(rng, ln), G.rbytes(rng, ln2); net = rng.choice(NETS)
+        ctx.count('spk-then')
+        yield Case(f'spk_then {ty} {hx(h)} {net} {ty2} {hx(h2)}', 'ms', nontrivial=True, tag='spk-then',
+                   model=lambda ans, ty=ty, h=h, net=net: (f'm:spk {ty} {hx(h)} {net}', ans),
+                   spec=lambda ans, ty=ty, h=h: (f's:spk {ty} {hx(h)}', ans))
+    for _ in range(ctx.n(40, 1500)):
+        toks = G.script_tokens(rng, names, 6, big=False) or ['OP_1']
+        toks2 = G.script_tokens(rng, names, 6, big=False) or ['OP_2']
+        ctx.count('commit-then')
+        yield Case(f'script_commit_then {toks_str(toks)} {toks_str(toks2)}', 'ms', nontrivial=True, tag='commit-then',
+                   model=lambda ans, t=toks: (f'm:script_commit {toks_str(t)}', ans),
+                   spec=lambda ans, t=toks: (f's:script_commit {toks_str(t)}', ans))
     # redeem / witness scripts that themselves look like the standard templates (hash locks, nested P2SH, ...)
     shaped = []
     for _ in range(ctx.n(6, 200)):
@@ -50,15 +70,36 @@ def impl(op, a, ctx):
     from bitcoinutils.setup import setup
     from bitcoinutils.keys import P2pkhAddress, P2shAddress, P2wpkhAddress, P2wshAddress, P2trAddress
     from bitcoinutils.script import Script
+    if op.startswith('rmd_'):
+        from harness import rmdleaf
+        return rmdleaf.impl(op, a, ctx)
     F = Fields(a)
+    def mk(ty, h):
+        if ty == 'p2pkh': return P2pkhAddress(hash160=h.hex())
+        if ty == 'p2sh': return P2shAddress(hash160=h.hex())
+        if ty == 'p2wpkh': return P2wpkhAddress(witness_program=h.hex())
+        if ty == 'p2wsh': return P2wshAddress(witness_program=h.hex())
+        return P2trAddress(witness_program=h.hex())
     if op == 'spk':
         ty = F.next(); h = F.bytes(); net = F.next(); setup(net)
-        if ty == 'p2pkh': ad = P2pkhAddress(hash160=h.hex())
-        elif ty == 'p2sh': ad = P2shAddress(hash160=h.hex())
-        elif ty == 'p2wpkh': ad = P2wpkhAddress(witness_program=h.hex())
-        elif ty == 'p2wsh': ad = P2wshAddress(witness_program=h.hex())
-        else: ad = P2trAddress(witness_program=h.hex())
-        return 'ok ' + hx(ad.to_script_pub_key().to_bytes())
+        return 'ok ' + hx(mk(ty, h).to_script_pub_key().to_bytes())
+    if op == 'spk_then':
+        ty = F.next(); h = F.bytes(); net = F.next(); setup(net)
+        first = mk(ty, h).to_script_pub_key()
+        ty2 = F.next(); h2 = F.bytes()
+        mk(ty2, h2).to_script_pub_key().to_bytes()
+        return 'ok ' + hx(first.to_bytes())
+    if op == 'script_commit_then':
+        setup('testnet')
+        s = Script(F.toks()); s2 = Script(F.toks())
+        a1 = P2shAddress(script=s); a2 = P2wshAddress(script=s)
+        held = [a1.to_script_pub_key(), a2.to_script_pub_key(), s.to_p2sh_script_pub_key(), s.to_p2wsh_script_pub_key()]
+        for o in (P2shAddress(script=s2).to_script_pub_key(), P2wshAddress(script=s2).to_script_pub_key(),
+                  s2.to_p2sh_script_pub_key(), s2.to_p2wsh_script_pub_key()):
+            o.to_bytes()
+        b = [o.to_bytes() for o in held]
+        if b[0] != b[2] or b[1] != b[3]: return 'ok helper-and-address-disagree'
+        return f'ok {a1.to_hash160()} {a2.to_witness_program()} {hx(b[2])} {hx(b[3])}'
     if op in ('script_commit', 'script_commit_after'):
         setup('testnet')
         s = Script(F.toks())
